@@ -61,9 +61,9 @@ PROPS = {'C18': {'title': 'Inflights window is a bounded FIFO under resizing',
                          'Vec::drain(..n)/drain(n..) with the iterator dropped = remove prefix/suffix (R9); <[T]>::to_vec copies (R9)',
                          'indexes < 2^62, lengths < 2^32; a snapshot at index 0 has term 0']},
  'C20': {'title': 'No panic or internal-check failure under contract-abiding use',
-         'modules': {'P': ['top', 'prelude', 'pb', 'inflights', 'log_unstable', 'storage_trait', 'raft_log', 'memstorage'],
+         'modules': {'P': ['top', 'prelude', 'pb', 'inflights', 'progress', 'quorum', 'tracker', 'confchange', 'log_unstable', 'storage_trait', 'raft_log', 'memstorage'],
                      'S': ['top', 'prelude', 'pb', 'inflights', 'progress', 'quorum', 'tracker', 'log_unstable', 'storage_trait', 'raft_log', 'raft']},
-         'body': {'P': ['inflights', 'log_unstable', 'storage_trait', 'config', 'util', 'raft_log', 'memstorage'], 'S': []},
+         'body': {'P': ['inflights', 'progress', 'quorum', 'tracker', 'confchange', 'log_unstable', 'storage_trait', 'config', 'util', 'raft_log', 'memstorage'], 'S': []},
          'cone': {'S': ['raft']},
          'modes': ['P', 'S'],
          'claim': 'PARTIAL',
